@@ -85,7 +85,7 @@ def membership_const(F, fn_path, run):
     return None
 
 
-def check(run, views, tier):
+def check(run, views, tier, with_ops=True):
     run.explanation = (
         "R-ORDERLIST / R-ENDTAG: the emission schedule of IppAttributes::to_bytes is extracted as an ordered event tree "
         "from the resolved HIR. The operation delimiter must be the first emission on every path; the ordered part is a "
@@ -184,11 +184,14 @@ def check(run, views, tier):
                 excl = False
                 for s in subterms(g.iter):
                     if s[0] == "closure":
-                        txt = show(s[1]["body"])
-                        if "Ne" in txt and "OperationAttributes" in txt:
-                            excl = True
-                run.ob("R-GROUPS", "other-groups loop excludes the operation group", excl,
-                       "loop over %s does not filter out the operation group (it would be emitted twice)" % tshow(g.iter)[:160], site(b),
+                        cps = closure_paths(b, s)
+                        # the filter must be exactly `tag != OperationAttributes`: every other group is emitted, empty or not
+                        if len(cps) == 1 and cps[0].ret[0] == "bin" and cps[0].ret[1] == "Ne":
+                            sides = [cps[0].ret[2], cps[0].ret[3]]
+                            if ("ctor", OP, []) in sides and any(is_call(x, "ipp::attribute::IppAttributeGroup::tag") or (x[0] == "field" and x[2] == "tag") for x in sides):
+                                excl = True
+                run.ob("R-GROUPS", "other-groups loop emits every group except the operation group", excl,
+                       "loop over %s: the filter is not exactly `tag != OperationAttributes` (the operation group would be emitted twice, or other groups dropped)" % tshow(g.iter)[:160], site(b),
                        key="R-GROUPS|%s|exclude-op" % FN)
                 for conds, bevs, _k in g.bodies:
                     fe = bevs[0] if bevs else None
@@ -216,8 +219,9 @@ def check(run, views, tier):
             continue
         run.ob("R-ORDERLIST", "L[0..2] = charset, natural-language", L[:2] == T["first"], "list starts with %s" % L[:2], st,
                key="R-ORDERLIST|%s|first-two" % L_path)
-        run.ob("R-ORDERLIST", "printer-uri in the ordered list", "printer-uri" in L, "list is %s" % L, st,
-               key="R-ORDERLIST|%s|printer-uri" % L_path)
+        for tgt in T["targets"]:
+            run.ob("R-ORDERLIST", "%s in the ordered list (operation target, third)" % tgt, tgt in L,
+                   "list is %s: %s would be emitted in hash order instead of third" % (L, tgt), st, key="R-ORDERLIST|%s|%s" % (L_path, tgt))
         run.ob("R-ORDERLIST", "job-id in the ordered list (RFC 8011 4.1.5: fourth after printer-uri)", T["then"] in L,
                "list is %s: job-id would be emitted in hash order after the listed names" % L, st,
                key="R-ORDERLIST|%s|job-id-missing" % L_path)
@@ -230,3 +234,11 @@ def check(run, views, tier):
             run.ob("R-ORDERLIST", "target uri is third", L.index("printer-uri") == 2 or (L[2:3] == ["job-uri"] and L.index("printer-uri") == 3) or L[2] in T["targets"],
                    "third name is %s" % L[2:3], st, key="R-ORDERLIST|%s|third" % L_path)
         run.ob("R-ORDERLIST", "no duplicates in the ordered list", len(set(L)) == len(L), "list is %s" % L, st)
+        # the builders put the target attributes into the operation group in the first place (R-OPWIRE of C10)
+        if with_ops:
+            from . import c10
+            from ..engine import load_json as _lj
+            TO = _lj(os.path.join(VERIF, "tables", "ops.json"))
+            inline = {p_: b_ for p_, b_ in F.hir.items() if p_.startswith("ipp::operation::") and b_["kind"] == "Fn" and p_.count("::") == 2}
+            for ty, spec in TO["operations"].items():
+                c10.check_operation(run, F, ty, spec, TO, inline)
